@@ -944,7 +944,8 @@ impl Arena {
       return Err(Error::ReadOnly);
     }
 
-    if mem::size_of::<T>() == 0 {
+    // a zero-sized `T` only short-cuts to plain bytes when there is no alignment to honour
+    if mem::size_of::<T>() == 0 && (extra == 0 || mem::align_of::<T>() == 1) {
       return self.alloc_bytes_in(extra);
     }
 
